@@ -86,3 +86,14 @@ Proof.
   - constructor; [assumption|constructor].
 Qed.
 
+
+(* for EVERY tree (text untrimmed, whitespace-only text nodes anywhere): what is read from the pretty
+   printer's output is what is read from the plain serialisation of the whitespace-stripped tree *)
+Corollary pretty_faithful n ind :
+  let d := strip (depth n) n in
+  forallb wf d = true -> nf_list nf d = true ->
+  read (pretty (depth n) ind n) = read (flat_map ser d).
+Proof.
+  intros d Hw Hn. unfold read. rewrite (pretty_tokens n ind Hw Hn).
+  fold d. now rewrite (tokens_flat d Hw Hn).
+Qed.
